@@ -5,7 +5,8 @@
     arbitrary history [ops] of accepted/rejected completion requests ([Submit]) and batches ([Step]); [F] is an
     arbitrary network+sampler (a function of the history the cache exposes); [cfg] carries context size, batch size,
     slot policy, whether the model can shift, whether the cache can erase partially / resume, and the EOS token;
-    [parallel] is the number of slots.  All of these are universally quantified. *)
+    [parallel] is the number of slots.  All of these are universally quantified.  The theorems over histories carry
+    the hypothesis [window cfg = None] (no sliding-window cache); [C07_no_double_use] holds for every cache. *)
 From Coq Require Import List ZArith Bool Arith Lia.
 From V Require Import Slots.Model Slots.ProofsKv Slots.ProofsSlots Slots.ProofsBatch Slots.ProofsRef Slots.ProofsNoFail Slots.ProofsTerm.
 Import ListNotations.
@@ -155,6 +156,22 @@ Proof. eexists. eexists. vm_compute. split; reflexivity. Qed.
 Example C07_example_submit :
   snd (submit ex_cfg (run (hash_vis 6) ex_cfg (init 2) (firstn 3 ex_ops)) [1;2;3;4;5;1] 6 0 []) = RSubmitted 0.
 Proof. vm_compute. reflexivity. Qed.
+
+(** Sliding-window caches (cfg with [window = Some w]) are part of the executable model (eviction in StartForward,
+    the window in the mask, CanResume as the window predicate) and are compared with kvcache.NewSWACache on every
+    run, but the theorems above are proved for [window = None] only.  This example pins what the model says about
+    the position LoadCacheSlot asks CanResume about: window 5, a 7-token prompt evaluated in batches of 2, two
+    tokens generated, the same prompt again.  The slot records 8 inputs, the cache still holds positions 2..7;
+    resuming at 7 (= len(prompt)) would be possible, but one input must be left to sample, so the slot is resumed at
+    6, whose window needs position 1: the model (as the code) asks about 6, gets "no" and reloads from scratch. *)
+Definition swa_cfg : config := mkCfg 11 2 false true true true (-1) (Some 5).
+Definition swa_ops : list op := Submit [2;0;0;1;0;1;0] 2 0 [] :: repeat Step 6.
+Example C07_example_swa_resume_position :
+  let st := run (hash_vis 3) swa_cfg (init 2) swa_ops in
+  map fst (view (kv st) 0) = [2;3;4;5;6;7] /\
+  can_resume swa_cfg (kv st) 0 7 = true /\ can_resume swa_cfg (kv st) 0 6 = false /\
+  s_inputs (nth_slot (slots (fst (submit swa_cfg st [2;0;0;1;0;1;0] 1 0 []))) 0) = [].
+Proof. vm_compute. repeat split; reflexivity. Qed.
 
 (** what the repair changed: on the same cache state the pinned reset Remove(seq, 0, -1) leaves the fork's sequence
     populated (its first cell is shared, so the scan stops at once) while slot.Inputs is emptied; the repaired reset
